@@ -122,6 +122,27 @@ fn tap_cases(base: &MpcCase, corrupt: usize) -> Vec<Case> {
                 break;
             }
         }
+        // attacker-chosen plaintext of the garbled rows (below the encryption): value bit, one MAC
+        // bit, one label bit, and every MAC-vector length
+        let n = base.n();
+        let plain_len = 9 + 16 * n + 16;
+        let at = |k: usize| {
+            let mut p = vec![0u8; plain_len];
+            p[k] = 1;
+            TapAction::XorBytes(p)
+        };
+        let mut acts = vec![at(0), at(plain_len - 1), at(plain_len - 16)];
+        for q in 0..n {
+            acts.push(at(9 + 16 * q));
+        }
+        for k in 0..=n {
+            acts.push(TapAction::RowMacs(k));
+        }
+        for a in acts {
+            let mut c = mk("garble_plain", None, "tap:garble_plain", 2);
+            c.attack.taps[0].action = a;
+            v.push(c);
+        }
     }
     v
 }
@@ -279,7 +300,7 @@ fn spread_inputs(n: usize, corrupt: usize, code: usize, cbits: usize) -> Vec<Vec
 
 pub fn run(tier: Tier, seed: u64) -> i32 {
     let ctx = Ctx::new("C02", tier, seed, "fault_enumeration");
-    ctx.set_rule("systematic enumeration: corrupted party = each single party (as evaluator and as garbler, n=2 all role assignments, n=3 sampled; output set with and without the cheater) x every message it sends x value-changing and omitting mutations on the decoded value tree (every bool flipped, every Option toggled, every 128-bit field bit-flipped/randomised, every sequence shortened/emptied at each nesting level), bit flips / truncation on the raw bytes, drops, per-recipient and all-recipient (n=3), plus armed taps (consistent lies about own input [negative control], own d-value share, own Beaver d/e share, garbled row share bit, aShare decommitment); honest inputs enumerated (rotating per case in quick, exhaustive in thorough); online-phase omissions repeated 4x because their effect depends on a coin; oracle: allowed set {f(x_honest, x')} by exhaustive enumeration of the cheater's input bits with the clear-text interpreter; every honest Ok must lie in it and all honest Oks agree; non-trivial = altered message consumed by an honest party (or tap/drop) and allowed set a strict subset of {0,1}^out; evaluations counts engine executions");
+    ctx.set_rule("systematic enumeration: corrupted party = each single party (as evaluator and as garbler, n=2 all role assignments, n=3 sampled; output set with and without the cheater) x every message it sends x value-changing and omitting mutations on the decoded value tree (every bool flipped, every Option toggled, every 128-bit field bit-flipped/randomised, every sequence shortened/emptied at each nesting level), bit flips / truncation on the raw bytes, drops, per-recipient and all-recipient (n=3), plus armed taps (consistent lies about own input [negative control], own d-value share, own Beaver d/e share, garbled row share bit, attacker-chosen garbled row plaintext [value bit / MAC / label bit flipped, MAC vector of every length], aShare decommitment); honest inputs enumerated (rotating per case in quick, exhaustive in thorough); online-phase omissions repeated 4x because their effect depends on a coin; oracle: allowed set {f(x_honest, x')} by exhaustive enumeration of the cheater's input bits with the clear-text interpreter; every honest Ok must lie in it and all honest Oks agree; non-trivial = altered message consumed by an honest party (or tap/drop) and allowed set a strict subset of {0,1}^out; evaluations counts engine executions");
     ctx.assume("single corrupted party; adversary = honest code + outbound proxy + taps (DESIGN 2.3)");
     let all = match all_cases(tier, seed) {
         Ok(a) => a,
